@@ -392,7 +392,7 @@ def _ens_run(h, method):
 
 
 contract('C09/ensemble._Step/member-hand-off', ['C09', 'C07'], ENS + '._Step', native=False)(lambda h: _ens_run(h, '_Step'))
-contract('C09/ensemble._Solve/member-hand-off', ['C09', 'C07', 'C02'], ENS + '._Solve', native=False)(lambda h: _ens_run(h, '_Solve'))
+contract('C09/ensemble._Solve/member-hand-off', ['C09', 'C07', 'C02', 'C01'], ENS + '._Solve', native=False)(lambda h: _ens_run(h, '_Solve'))
 
 
 @contract('C09/BuckshotSolver._InitialPoints', ['C09', 'C02'], 'mystic/ensemble.py::BuckshotSolver._InitialPoints', native=False)
@@ -415,3 +415,45 @@ def buckshot_points(h):
     h.check('each-member-starts-inside-the-strict-ranges',
             ' and '.join('len(pts[%d]) == %d and lo[%d] <= pts[%d][%d] and pts[%d][%d] <= up[%d]' % (k, D, d, k, d, k, d, d)
                          for k in range(npts) for d in range(D)), pts=pts, lo=lo, up=up)
+
+
+@contract('C09/ensemble.accounting', ['C09', 'C04'], ENS + '.__all_evals', native=False)
+def accounting(h):
+    """the ensemble's per-member and total counters are exactly the members' own counters (evaluations, generations, best
+    energy, best solution) and their sums -- whatever monitors the members carry; an empty slot counts 0"""
+    if not h.is_sym():
+        h.unsupported('symbolic only')
+    k = h.choice('members', [1, 2, 3])
+    hole = h.choice('one_slot_still_empty', [False, True]) if k > 1 else False
+    members = []
+    for i in range(k):
+        if hole and i == 1:
+            members.append(None)
+            continue
+        ev, gen = h.int('evals_%d' % i), h.int('gens_%d' % i)
+        h.assume('ev >= 0 and gen >= 0', ev=ev, gen=gen)
+        monlen = h.choice('evaluation_monitor_records_%d' % i, [0, 5])
+        # the evaluation monitor may hold legacy records (a reused / pre-filled monitor): irrelevant for the counters
+        mon = h.obj('mystic/monitors.py::Monitor', _x=h.clist([0.0] * monlen), _y=h.clist([0.0] * monlen), _id=h.clist([None] * monlen),
+                    _info=h.clist([]), k=None, _npts=None, label='ChiSq')
+        members.append(h.obj(None, evaluations=ev, generations=gen, bestEnergy=h.real('bestE_%d' % i), bestSolution=h.vec('best_%d' % i, 2),
+                             _evalmon=mon, _stepmon=mon))
+    s = h.obj(ENS, _allSolvers=h.clist(members))
+    env = dict(s=s)
+    conj_e, conj_g, conj_b = [], [], []
+    for i, m in enumerate(members):
+        env['m%d' % i] = m
+        if m is None:
+            conj_e.append('s._all_evals[%d] == 0' % i)
+            conj_g.append('s._all_iters[%d] == 0' % i)
+            conj_b.append('s._all_bestEnergy[%d] is None and s._all_bestSolution[%d] is None' % (i, i))
+        else:
+            conj_e.append('s._all_evals[%d] == m%d.evaluations' % (i, i))
+            conj_g.append('s._all_iters[%d] == m%d.generations' % (i, i))
+            conj_b.append('s._all_bestEnergy[%d] == m%d.bestEnergy and same(s._all_bestSolution[%d], m%d.bestSolution)' % (i, i, i, i))
+    live = [i for i, m in enumerate(members) if m is not None]
+    h.check('per-member-evaluation-counts-are-the-members-own', 'len(s._all_evals) == %d and ' % k + ' and '.join(conj_e), **env)
+    h.check('per-member-generation-counts-are-the-members-own', 'len(s._all_iters) == %d and ' % k + ' and '.join(conj_g), **env)
+    h.check('per-member-best-energy-and-solution-are-the-members-own', ' and '.join(conj_b), **env)
+    h.check('total-evaluations-is-the-sum-over-members', 's._total_evals == ' + (' + '.join('m%d.evaluations' % i for i in live) or '0'), **env)
+    h.check('total-generations-is-the-sum-over-members', 's._total_iters == ' + (' + '.join('m%d.generations' % i for i in live) or '0'), **env)
